@@ -16,6 +16,10 @@ def plans(tier):
         # a burst already queued when the set first looks at the member (more than any plausible per-event budget)
         {"name": "bulk-queued-first", "msgs": [[1] * 200, [1, 1]], "prog": [A(1), A(2)], "simulate": 2, "depth": 1500, "caps": (2,),
          "senders_first": True, "liveness": False},
+        # more members ready in one epoll_wait than the events buffer holds (capacity 10 in the code): the rest must come
+        # out of the following waits although nothing new arrives on them
+        {"name": "11-ready-at-once", "msgs": [[1]] * 11, "prog": [A(m) for m in range(1, 12)], "simulate": 2, "depth": 400,
+         "caps": (10,), "senders_first": True, "liveness": False},
         # the sender of a fragmented message is killed mid-message; observed through the set
         {"name": "kill-mid-message", "msgs": [[1, 2], [2, 1]], "prog": [A(1), A(2)], "simulate": 30, "caps": (2,),
          "crashers": [2], "liveness": False},
